@@ -330,4 +330,17 @@ PROPS['C01']['proved_part'] += ('; Vectors._pair_with binds the three closures (
                                 'NEW bitset classes per relation and pairs both directions; Context.__init__ builds the Relation from (properties, objects, bools)')
 PROPS['C01']['bounded_part'] = 'bitsets library contracts (bitset() returns a new class, frombools/bools, frommembers/members, zip transposition); replay'
 
+PROPS['C19'].update({
+    'units': ['contexts.__init__', 'contexts.fromdict'],
+    'level': 'proof',
+    'proved_part': 'Context.__init__ and Context.fromdict return normally iff the input is well-formed (non-empty, duplicate-free, disjoint name lists; one row per object with one cell '
+                   'per property; for fromdict additionally all three keys present, string names, row count = object count, duplicate-free in-range column indexes, a lattice present when '
+                   'required and never empty) and raise ValueError -- and only ValueError -- otherwise, before any context exists; accepted rows satisfy bools[r][i] <-> i in context[r]; '
+                   'the stored lattice is attached iff present and not ignored, with the raw flag passed on',
+    'bounded_part': 'faithfulness of .objects/.properties/.bools through the bitsets frombools/bools contracts; single and double corruptions as replay',
+    'technique': 'contract-based deductive verification of the iff-postconditions of the constructor and of fromdict (nested function executed in place, lazy rows forced per element)',
+    'level_text': 'Both entry points are proved for all well-typed inputs: acceptance iff well-formedness, ValueError otherwise.',
+    'level_note': 'Input abstracted by lengths, duplicate-freeness, disjointness, per-row predicates; builtins (all, isinstance, set, issubset, range, map) assumed; a literal None lattice value is not modelled.',
+})
+
 NOT_APPLICABLE = {}
